@@ -232,6 +232,7 @@ func (g *gate) Read(buf []byte) (int, error) {
 			}
 		}
 
+	instruction:
 		if gateIn.Buffered() > 0 || fds[0].Revents&(unix.POLLIN|unix.POLLHUP) != 0 {
 			line, err := gateIn.ReadBytes('\n')
 			if err != nil {
@@ -245,13 +246,18 @@ func (g *gate) Read(buf []byte) (int, error) {
 			case "go":
 				// Wait until the whole chunk is in the tty queue: the library
 				// then sees exactly the chunk the schedule prescribes.
-				for {
+				for i := 0; ; i++ {
 					avail, err := unix.IoctlGetInt(0, unix.TIOCINQ)
 					if err != nil || avail >= ins.N {
 						break
 					}
 
 					time.Sleep(20 * time.Microsecond)
+
+					if i == 20000 {
+						t := getTermios()
+						emit(&proto.Event{Ev: "error", Msg: fmt.Sprintf("gate: GO %d but only %d bytes in the tty queue (park %d) lflag=%#x iflag=%#x", ins.N, avail, parkN, t.Lflag, t.Iflag)})
+					}
 				}
 
 				return os.Stdin.Read(buf)
@@ -268,6 +274,15 @@ func (g *gate) Read(buf []byte) (int, error) {
 		}
 
 		if fds[1].Revents&(unix.POLLIN|unix.POLLHUP|unix.POLLERR) != 0 {
+			// The driver writes GO before the bytes, but poll() looks at the
+			// descriptors one after the other and can be preempted in between:
+			// look at the gate pipe again before concluding there is no GO.
+			again := []unix.PollFd{{Fd: gfd, Events: unix.POLLIN}}
+			if n, _ := unix.Poll(again, 0); n > 0 && again[0].Revents&(unix.POLLIN|unix.POLLHUP) != 0 {
+				fds[0].Revents = again[0].Revents
+				goto instruction
+			}
+
 			// Bytes without a GO: a cursor report asked for by another
 			// goroutine, or a hang-up. Let the kernel's own read decide.
 			return os.Stdin.Read(buf)
